@@ -10,7 +10,12 @@ from lazy_object_proxy import Proxy
 
 from spec_classes.types import MISSING, Attr
 from spec_classes.utils.method_builder import MethodBuilder
-from spec_classes.utils.mutation import mutate_attr, mutate_value, prepare_attr_value
+from spec_classes.utils.mutation import (
+    mutate_attr,
+    mutate_value,
+    prepare_attr_value,
+    thawed,
+)
 
 from .base import AttrMethodDescriptor
 
@@ -273,6 +278,9 @@ class ResetAttrMethod(AttrMethodDescriptor):
             return self
         if not _inplace:
             self = copy.deepcopy(self)
+            with thawed(self):
+                delattr(self, attr_spec.name)
+            return self
         delattr(self, attr_spec.name)
         return self
 
